@@ -25,7 +25,10 @@ RULE = ("case 'read' = (format out of dbc, sym, kcd, json, dbf, arxml; an abstra
         "texts) also hold the punctuation of the statement grammars - double quotes, //, =, switches, brackets, keywords, markup characters - wherever "
         "the format's definition lets a text hold it (GRAMMAR_TEXTS and the tables below it); an ARXML file of level 1 states the computation method and the data "
         "constraint of a signal at any of the places the schema offers (NETWORK-REPRESENTATION-PROPS of the I-SIGNAL, PHYSICAL-PROPS of the SYSTEM-SIGNAL as in the "
-        "shipped Vector samples, both), references the unit from the COMPU-METHOD, the properties of the I-SIGNAL or both, with DATA-TYPE-POLICY LEGACY, OVERRIDE or left out, I-SIGNAL-TYPE and DYNAMIC-LENGTH present or left out. case 'ecus' = the described ECUs are present; with 'facts' = what the file says about each ECU "
+        "shipped Vector samples, both), references the unit from the COMPU-METHOD, the properties of the I-SIGNAL or both, with DATA-TYPE-POLICY LEGACY, OVERRIDE or left out, I-SIGNAL-TYPE and DYNAMIC-LENGTH present or left out; an ARXML file may describe further CAN-CLUSTERs (before and after "
+        "Main) on which some of the CAN-FRAMEs are triggered as well, sent on by a gateway or another ECU and received by other ECUs (FRAME-PORTs of connectors of their own): "
+        "with 'bus' the frame is looked up in the matrix of that cluster and compared with what that cluster's triggering describes, the frames of Main with what Main "
+        "describes; 'ecus' with 'bus' = the ECUs connected to that cluster are present in its matrix. case 'ecus' = the described ECUs are present; with 'facts' = what the file says about each ECU "
         "(comment, also over several lines; attribute values for dbc and dbf) is among what was read; for sym, which knows no ECUs, the same case carries what "
         "the file says about each multiplexer group (the comment behind its Mux= line, the empty text where there is none). case 'defs' with 'facts' (dbc, dbf) = the attribute "
         "values on network level and the named value tables (dbc) are read as described, and no others. case 'defs' (dbc, dbf) = every described attribute definition is "
@@ -37,7 +40,10 @@ PARTIAL = ["Lean theorems cover the lexical freedom of the DBC SG_/BO_ statement
            "ARXML: AUTOSAR 4 subset without MULTIPLEXED-I-PDU, container and secured PDUs; KCD: one bus; SYM: format version 5.0",
            "the independent writers are part of the harness and trusted to follow the format definitions; position conventions follow the "
            "formats' writers in canmatrix (C06) where the definition leaves the numbering open"]
-ASSUMPTIONS = ["DBC: blanks (not tabs) between tokens; SYM and DBF: single separators as their tools emit them",
+ASSUMPTIONS = ["ARXML with several clusters: the first cluster in the file that holds a frame which later clusters hold too is not judged (CanCluster.update_frames/"
+               "update_signals of the unchanged code add the later clusters' senders and receivers to that frame object); further clusters state reception per frame, "
+               "not per signal, and by ECUs that receive nothing of the frame on Main",
+               "DBC: blanks (not tabs) between tokens; SYM and DBF: single separators as their tools emit them",
                "ARXML: denominators whose quotient is a finite decimal; one port direction per frame and ECU",
                "DBF: limits are not compared (the raw/physical convention of the two number fields is tool specific); ENUM attribute values are not generated"]
 TRUSTED = ["independent writers harness/lib/c15/{dbc,sym,kcd,json,dbf,arxml}.py", "lxml, json used by the readers"]
@@ -57,7 +63,7 @@ def run(net, fmt, lexseed, level, enc=None):
     if key in _cache:
         return _cache[key]
     R = module(fmt)
-    res = {"exc": None, "db": None, "errors": 0, "text": None, "notes": {}}
+    res = {"exc": None, "db": None, "dbs": {}, "errors": 0, "text": None, "notes": {}}
     try:
         lex = R.Lex(random.Random(lexseed), level)
         text = R.render(net, lex)
@@ -71,8 +77,9 @@ def run(net, fmt, lexseed, level, enc=None):
             opts = {"dbcImportEncoding": enc, "dbcImportCommentEncoding": enc, "symImportEncoding": enc, "dbfImportEncoding": enc}
         with contextlib.redirect_stdout(out):
             dbs = canmatrix.formats.loads(data, fmt, **opts)
-        db = list(dbs.values())[0] if isinstance(dbs, dict) else dbs
+        db = (dbs["Main"] if "Main" in dbs else list(dbs.values())[0]) if isinstance(dbs, dict) else dbs
         res["db"] = db
+        res["dbs"] = dict(dbs) if isinstance(dbs, dict) else {}      # every bus the file describes (arxml: one matrix per CAN-CLUSTER)
         res["errors"] = out.getvalue().count("error with line no") + len(getattr(db, "load_errors", []) or [])
     except Exception as e:  # noqa
         import traceback
@@ -288,6 +295,55 @@ def got_group_facts(db):
     return out
 
 
+CLUSTER_NAMES = ["Body", "Chassis", "Aux"]       # names before and after "Main" in every order a reader might sort them by
+
+
+def route(rng, net):
+    """an AUTOSAR system with further CAN-CLUSTERs: some of the described CAN-FRAMEs are triggered on another cluster as well (a gateway
+    sends them on), with the senders and receivers of that cluster's CAN-FRAME-TRIGGERING / I-SIGNAL-TRIGGERINGs.  Returns the description
+    with net["clusters"] = [{"name", "before_main", "ecus", "frames": {frame name: {"tx": [...], "receivers": {signal name: [...]}}}}]"""
+    import copy
+    net = copy.deepcopy(net)
+    ecus = net["ecus"]
+    net["clusters"] = []
+    for cn in rng.sample(CLUSTER_NAMES, rng.choice([1, 1, 2])):
+        frames = {}
+        for f in rng.sample(net["frames"], rng.randint(1, len(net["frames"]))):
+            rx_main = sorted({r for s in f["signals"] for r in s["receivers"]})
+            others = [e for e in ecus if e not in f["tx"]]
+            kind = rng.random()
+            if kind < 0.5 and rx_main:
+                tx = [rng.choice(rx_main)]                  # the gateway: receives the frame on Main, sends it here
+            elif kind < 0.85 and others:
+                tx = rng.sample(others, rng.choice([1, 1, 2]) if len(others) > 1 else 1)
+            else:
+                tx = []                                     # no sender stated on this cluster
+            # reception on this cluster is stated per frame (FRAME-PORT IN); the PDU-TRIGGERING of the further cluster has no I-SIGNAL-TRIGGERINGs
+            # of its own (they are optional), so no signal has a receiver there.  Kept out of the stream for now, because the unchanged reader
+            # gets them wrong (see DESIGN 10.3 / final report of this strengthening): I-SIGNAL-TRIGGERINGs with ports on two clusters (the receivers
+            # of a signal are taken from whichever triggering comes last in the file, for every cluster), and an ECU that receives the frame on
+            # this cluster and a signal of it on Main (it is read as receiver of the signal here too)
+            free = [e for e in ecus if e not in tx and e not in rx_main]
+            rx = sorted(rng.sample(free, min(len(free), rng.choice([0, 1, 1, 2]))))
+            frames[f["name"]] = {"tx": tx, "rx": rx, "receivers": {}, "signal_triggerings": False}
+        attached = sorted({e for r in frames.values() for e in r["tx"] + r["rx"]})
+        silent = [e for e in ecus if e not in attached]
+        if silent and rng.random() < 0.3:
+            attached.append(rng.choice(silent))              # connected to the cluster without sending or receiving
+        net["clusters"].append({"name": cn, "before_main": rng.random() < 0.5, "ecus": attached, "frames": frames})
+    # the order in which the clusters stand in the file (the writer puts a "before_main" cluster in front of what is there)
+    order = ["Main"]
+    for c in net["clusters"]:
+        order = [c["name"]] + order if c["before_main"] else order + [c["name"]]
+    net["cluster_order"] = order
+    return net
+
+
+def routed_frame(f, r):
+    """the frame as the triggerings of a further cluster describe it"""
+    return dict(f, tx=list(r["tx"]), signals=[dict(s, receivers=list(r["receivers"].get(s["name"], []))) for s in f["signals"]])
+
+
 def gen(rng, tier, shard, nshards):
     total = {"quick": 1600, "thorough": 16000}[tier] // nshards + 1
     for _ in range(total):
@@ -316,6 +372,21 @@ def gen(rng, tier, shard, nshards):
         if fmt in LEVEL_VALUES:
             # network level: attribute values, value tables
             yield {"op": "defs", "c": dict(base, facts=True, want=want_global(net, fmt))}
+        if fmt == "arxml" and rng.random() < 0.6:
+            # the same system with further CAN-CLUSTERs on which some of the frames are triggered too: every cluster's matrix holds the
+            # frame with the senders and receivers of that cluster's triggering, and the frames of Main stay what they were
+            net2 = route(rng, net)
+            base2 = dict(base, net=net2)
+            by_name = {c["name"]: c for c in net2["clusters"]}
+            for f in net2["frames"]:
+                holders = [b for b in net2["cluster_order"] if b == "Main" or f["name"] in by_name[b]["frames"]]
+                # (kept out for now: the first cluster in the file that holds a frame which other clusters hold too - the unchanged
+                # CanCluster.update_frames/update_signals add the senders and receivers of the later clusters to that frame object)
+                for bus in (holders[1:] if len(holders) > 1 else holders):
+                    d = f if bus == "Main" else routed_frame(f, by_name[bus]["frames"][f["name"]])
+                    yield {"op": "read", "c": dict(base2, bus=bus, nclusters=len(holders), fid=f["id"], ext=f["ext"], desc=N.expected_frame(d))}
+            for c in net2["clusters"]:
+                yield {"op": "ecus", "c": dict(base2, bus=c["name"], ecus=list(c["ecus"]))}
         if fmt == "dbc":
             r = run(net, fmt, lexseed, level, base.get("enc"))
             if r["text"] is not None:
@@ -350,6 +421,11 @@ def observe(case):
     if r["exc"]:
         return {"exc": r["exc"], "got": None, "errors": 0, "ecus": []}
     db = r["db"]
+    if c.get("bus"):
+        # one matrix per bus the file describes (arxml: per CAN-CLUSTER)
+        db = r["dbs"].get(c["bus"])
+        if db is None:
+            return {"exc": None, "errors": r["errors"], "got": None, "ecus": [], "places": []}
     if op == "ecus" and c.get("facts"):
         return {"exc": None, "ecus": got_group_facts(db) if c["fmt"] == "sym" else got_ecu_facts(db, c["fmt"])}
     if op == "ecus":
@@ -451,6 +527,16 @@ def features(case, impl):
                 yield c["fmt"] + ":values"
         for n in impl.get("places") or []:
             yield "%s:%s" % (c["fmt"], n)
+        if c.get("bus"):
+            order = c["net"]["cluster_order"]
+            yield "%s:%d clusters in the file" % (c["fmt"], len(order))
+            yield "%s:frame triggered on %d clusters, read from %s" % (c["fmt"], c["nclusters"], "Main" if c["bus"] == "Main" else "a further cluster")
+            if c["bus"] != "Main":
+                r = next(x for x in c["net"]["clusters"] if x["name"] == c["bus"])["frames"][d["name"]]
+                main = next(f for f in c["net"]["frames"] if f["name"] == d["name"])
+                yield "%s:further cluster:%s" % (c["fmt"], "no sender" if not r["tx"] else "sent by a receiver on Main (gateway)" if any(
+                    e in {x for s in main["signals"] for x in s["receivers"]} for e in r["tx"]) else "sent by another ECU")
+                yield "%s:further cluster:%d receiving ECUs" % (c["fmt"], len(r["rx"]))
         if impl.get("exc"):
             yield "exception:" + c["fmt"]
 
